@@ -9,13 +9,14 @@
    warm   the epoch fact "the documented minimum amount of data of the current epoch has been
           seen" - supplied by the refining module (burn_in, n_threshold, windows, schedule ...) *)
 EXTENDS Integers
-CONSTANTS RestartTo,   \* value `since` takes on the update that follows a drift (1; PCACD 0; HDM detect_batch=1: 2)
-          Incs,        \* admissible increments of `total` per accepted update ({1}; HDM detect_batch=1: {1,2})
-          HasRecs,     \* detector exposes retraining_recs
-          EpochBound,  \* recs of an epoch never reach back before the epoch (all but ADWIN, whose window survives)
-          RefRestart   \* the update that completes a reference window restarts `since` at 0 (kdq-tree detectors only)
+VARIABLES ltab     \* the per-detector table (never changes): [restart, incs, hasrecs, epochbound, refrestart]
+RestartTo  == ltab.restart     \* value `since` takes on the update that follows a drift (1; PCACD 0; HDM detect_batch=1: 2)
+Incs       == ltab.incs        \* admissible increments of `total` per accepted update ({1}; HDM detect_batch=1: {1,2})
+HasRecs    == ltab.hasrecs     \* detector exposes retraining_recs
+EpochBound == ltab.epochbound  \* recs of an epoch never reach back before the epoch (all but ADWIN, whose window survives)
+RefRestart == ltab.refrestart  \* the update completing a reference window restarts `since` at 0 (kdq-tree detectors only)
 VARIABLES total, since, state, recs, warm
-lcvars == <<total, since, state, recs, warm>>
+lcvars == <<ltab, total, since, state, recs, warm>>
 
 States == {"None", "warning", "drift"}
 NoRecs == <<-1, -1>>
@@ -31,6 +32,7 @@ Init == /\ total = 0 /\ since = 0 /\ state = "None" /\ recs = NoRecs /\ warm \in
 
 (* an accepted update (sample or batch) *)
 Accepted ==
+  /\ ltab' = ltab
   /\ \E inc \in Incs : total' = total + inc
   /\ since' = IF state = "drift" THEN RestartTo ELSE since + 1
   /\ state' \in States
@@ -51,15 +53,16 @@ Accepted ==
 Rejected == UNCHANGED lcvars
 
 (* user called reset() *)
-UserReset == /\ since' = 0 /\ state' = "None" /\ total' = total
+UserReset == /\ ltab' = ltab /\ since' \in {0, RestartTo - 1} /\ state' = "None"
+             /\ (\E inc \in {0} \cup {i - 1 : i \in Incs} : total' = total + inc)     \* HDM detect_batch=1 re-processes its proxy batch
              /\ recs' = (IF HasRecs THEN NoRecs ELSE recs) /\ warm' \in BOOLEAN
 
 (* kdq-tree detectors: the update that completes the reference window (streaming) or is itself used as
    the reference (batch, first update without set_reference) is counted and restarts the epoch count at 0 *)
-AcceptedRefComplete == /\ RefRestart /\ total' = total + 1 /\ since' = 0 /\ state' = "None"
+AcceptedRefComplete == /\ ltab' = ltab /\ RefRestart /\ total' = total + 1 /\ since' = 0 /\ state' = "None"
                        /\ recs' = recs /\ warm' \in BOOLEAN
 (* set_reference on a batch detector: a new epoch starts, nothing is counted *)
-SetReference == /\ since' \in {0, RestartTo - 1} /\ state' = "None" /\ warm' \in BOOLEAN /\ recs' = recs
+SetReference == /\ ltab' = ltab /\ since' \in {0, RestartTo - 1, since} /\ state' = "None" /\ warm' \in BOOLEAN /\ recs' = recs
                 /\ \E inc \in {0} \cup {i - 1 : i \in Incs} : total' = total + inc
 
 Next == Accepted \/ Rejected \/ UserReset \/ AcceptedRefComplete \/ SetReference
